@@ -231,8 +231,32 @@ def run(tier, t0):
                 okp = okp or ('binary_search_by_key' in e and 'Result::err' in e and 'checked_sub' not in e.split('Option::and_then')[0] and e.count('Option::and_then') == 2 and 'ranges_values' in e)
         if not okp:
             res.violation('C11.6', 'C11.6|prev_func', f, f.line, 'prev_func is not functions.ranges_values().binary_search_by_key(&addr, start).err().and_then(idx - 1).and_then(get)')
+    # C11.7 records reach the lookup tables as parsed: between parsing and storing, a record collection is only sorted,
+    # filtered for empty records (`size > 0`) and handed to the range-map builders; nothing merges, de-duplicates,
+    # truncates or rewrites records (merging two INLINE ranges loses the second call site)
+    res.rule('C11.7', 0, floor=10, note='finish_item / finish apply only sort / push / the size filter / the builders to record collections')
+    ALLOWED = re.compile(r'(DerefMut>::deref_mut|Deref>::deref|IntoIterator>::into_iter|Iterator::filter|Iterator::map|into_rangemap_safe|slice::sort|Vec::push|Iterator::collect|std::mem::take|Vec::new|core::mem::take)$')
+    for g in c.fns:
+        if not re.search(r'SymbolParser::(finish_item|finish)$', g.qual):
+            continue
+        for b, t in g.calls():
+            n = g.callee(t) or ''
+            if is_log_term(t) or not re.search(r'(std::vec::Vec|std::slice|core::slice|<\[T\]|Iterator|into_rangemap)', n):
+                continue
+            res.rule('C11.7', 1)
+            if not ALLOWED.search(n):
+                a0 = show(g.expand(g.operand_tree(t['args'][0])))[:80] if t['args'] else ''
+                res.violation('C11.7', 'C11.7|%s|%s' % (g.qual.split('::')[-1], n.split('::')[-1]), g, t.get('line'), '%s rewrites a parsed record collection (%s) before it is stored: records must reach the lookup tables as parsed' % (n, a0))
+            if n.endswith('Iterator::filter'):
+                cl = g.expand(g.operand_tree(t['args'][1]))
+                okf = False
+                if cl[0] == 'closure':
+                    h = c.fn(cl[1])
+                    okf = h is not None and [show(h.expand(t2)) for (_, _, t2) in ret_assigns(h)] == ['(Gt l.size 0)']
+                if not okf:
+                    res.violation('C11.7', 'C11.7|%s|filter' % g.qual.split('::')[-1], g, t.get('line'), 'records are filtered by something other than `size > 0`')
     res.assumptions += ['slice::binary_search_by_key and RangeMap::get are correct on sorted / non-overlapping data (std, range-map)',
                         'that the right record is found for every record set is a property of the searches over data, not decided here']
-    return harness.finish(res, tier, t0, distinct=7, explanation=(
+    return harness.finish(res, tier, t0, distinct=8, explanation=(
         'Narrow structural claim: the three searches of symbolication run on data sorted by the very key they search (sort dominates the store; field order of the derived Ord), the inlinee candidate is re-checked for depth and coverage, '
         'the module base is never subtracted from a smaller address, reported bases are the looked-up record\'s address plus the module base, the PUBLIC fallback is a reverse scan for address <= addr, and inline frames are reversed exactly once after symbolication.'))
